@@ -33,7 +33,9 @@ RULE = ("labels: random number trees (leaf-only, balanced, degenerate chains, co
         "First/Next links were rewired into cycles / shared / dangling links (tie and termination only); names: random name "
         "trees (same shapes, Limits tight) with present and absent keys (below, between, above, prefixes/extensions of "
         "keys, str names against the PDF-1.1 Dests dictionary); text: random strings in both encodings incl. surrogate "
-        "pairs, every PDFDocEncoding byte; formatters: roman exhaustively 1..3999, alpha 1..N.  A case is non-trivial "
+        "pairs, every PDFDocEncoding byte; every labels / outline / names case is also observed repeatedly on ONE "
+        "PDFDocument (second pass, interleaved generators, reverse order), with nested page trees, page selection, "
+        "indirect scalar values and caching=False; formatters: roman exhaustively 1..3999, alpha 1..N.  A case is non-trivial "
         "when it is a distinct input with >= 2 ranges / >= 2 outline items / a tree with Kids / a non-ASCII string.")
 TRUSTED_BASE = [
     "tools/translate/gen_c17.py (Python ast -> Lean) for ROMAN_ONES, ROMAN_FIVES, PDFDocEncoding - each translated "
@@ -307,7 +309,9 @@ def names_domain(case) -> bool:
 # ----------------------------------------------------------------------------- PDF construction
 
 class Builder:
-    def __init__(self, npages: int):
+    def __init__(self, npages: int, pgroups: Optional[List[int]] = None):
+        """Page i is object 3 + i.  `pgroups` shapes the page tree: k > 0 = an intermediate /Pages node holding the
+        next k pages, 0 = the next page directly under the root (document order = page index in every shape)."""
         self.objs: Dict[int, Any] = {}
         self.npages = npages
         self.catalog: Dict[str, Any] = {"Type": "Catalog", "Pages": Ref(2)}
@@ -316,6 +320,22 @@ class Builder:
         for i in range(npages):
             self.objs[3 + i] = {"Type": "Page", "Parent": Ref(2), "MediaBox": [0, 0, 10, 10]}
         self.next = 3 + npages
+        if pgroups and sum(max(1, g) for g in pgroups) == npages:
+            kids: List[Any] = []
+            i = 0
+            for g in pgroups:
+                if g <= 0:
+                    kids.append(Ref(3 + i))
+                    i += 1
+                else:
+                    nid = self.alloc()
+                    self.objs[nid] = {"Type": "Pages", "Parent": Ref(2), "Count": g,
+                                      "Kids": [Ref(3 + j) for j in range(i, i + g)]}
+                    for j in range(i, i + g):
+                        self.objs[3 + j]["Parent"] = Ref(nid)
+                    kids.append(Ref(nid))
+                    i += g
+            self.objs[2]["Kids"] = kids
 
     def alloc(self) -> int:
         n = self.next
@@ -343,14 +363,18 @@ def emit_label_dict(b: Builder, ld) -> Any:
     d: Dict[str, Any] = {}
     if ld.get("type"):
         d["Type"] = "PageLabel"
+    vind = ld.get("vind", "")     # which values are written as indirect objects (7.3.10: any object may be)
+    if ld.get("junk"):
+        return 7      # not a dictionary at all (wild)
     if ld.get("S") is not None:
         d["S"] = Name(ld["S"].encode("latin-1"))
     if ld.get("P") is not None:
         d["P"] = pdf_string(ld["P"], ld.get("hexstr", False))
     if ld.get("St") is not None:
         d["St"] = ld["St"]
-    if ld.get("junk"):
-        return 7      # not a dictionary at all (wild)
+    for key, flag in (("S", "s"), ("P", "p"), ("St", "n")):
+        if key in d and flag in vind:
+            d[key] = b.add(d[key])
     return b.add(d) if ld.get("ind") else d
 
 
@@ -359,12 +383,13 @@ def emit_numtree(b: Builder, node) -> Any:
     if node.get("nums") is not None:
         arr: List[Any] = []
         for k, v in node["nums"]:
-            arr += [k, emit_label_dict(b, v)]
+            arr += [b.add(k) if node.get("kind") else k, emit_label_dict(b, v)]
         if node.get("dangling") is not None:
             arr.append(node["dangling"])
-        d["Nums"] = arr
+        d["Nums"] = b.add(arr) if node.get("aind") else arr
     if node.get("kids") is not None:
-        d["Kids"] = [emit_numtree(b, c) for c in node["kids"]]
+        kids = [emit_numtree(b, c) for c in node["kids"]]
+        d["Kids"] = b.add(kids) if node.get("aind") else kids
     if node.get("limits"):
         ks = [k for k, _ in flatten_num(node)]
         if ks:
@@ -400,15 +425,21 @@ def val_canon(b: Optional[Builder], v, npages: int) -> str:
 
 def emit_nametree(b: Builder, node) -> Any:
     d: Dict[str, Any] = {}
+    kind = node.get("kind")       # key strings (and Limits entries) written as indirect objects
     if node.get("limits") is not None:
-        d["Limits"] = [unh(node["limits"][0]), unh(node["limits"][1])]
+        lim = [unh(node["limits"][0]), unh(node["limits"][1])]
+        d["Limits"] = [b.add(x) for x in lim] if kind else lim
+        if node.get("aind"):
+            d["Limits"] = b.add(d["Limits"])
     if node.get("names") is not None:
         arr: List[Any] = []
         for k, v in node["names"]:
-            arr += [pdf_string(k, node.get("hexstr", False)), emit_dest_value(b, v)]
-        d["Names"] = arr
+            ks = pdf_string(k, node.get("hexstr", False))
+            arr += [b.add(ks) if kind else ks, emit_dest_value(b, v)]
+        d["Names"] = b.add(arr) if node.get("aind") else arr
     if node.get("kids") is not None:
-        d["Kids"] = [emit_nametree(b, c) for c in node["kids"]]
+        kids = [emit_nametree(b, c) for c in node["kids"]]
+        d["Kids"] = b.add(kids) if node.get("aind") else kids
     return b.add(d) if node.get("ind") else d
 
 
@@ -433,12 +464,19 @@ def emit_outlines(b: Builder, case) -> None:
         b.outline_ids += [r.n for r in refs]
         for i, it in enumerate(items):
             d: Dict[str, Any] = {"Parent": parent}
+            vind = it.get("vind", "")
             if it.get("t") is not None:
                 d["Title"] = pdf_string(it["t"], it.get("hexstr", False))
+                if "t" in vind:
+                    d["Title"] = b.add(d["Title"])
             if it.get("d") is not None:
                 d["Dest"] = emit_outline_dest(b, it["d"])
+                if "d" in vind:
+                    d["Dest"] = b.add(d["Dest"])
             if it.get("a") is not None:
                 d["A"] = {"S": "GoTo", "D": emit_outline_dest(b, it["a"])}
+                if "a" in vind:
+                    d["A"] = b.add(d["A"])
             if it.get("se"):
                 d["SE"] = {"Type": "StructElem", "S": "H1", "K": it["se"]}
             if i > 0:
@@ -466,43 +504,99 @@ def emit_outlines(b: Builder, case) -> None:
 
 # ----------------------------------------------------------------------------- implementation adapters
 
-def open_doc(pdf: bytes):
+def open_doc(pdf: bytes, case=None):
+    """`case["nocache"]`: the rarely used PDFDocument(caching=False) - every reference is parsed again on each use."""
     from pdfminer.pdfdocument import PDFDocument
     from pdfminer.pdfparser import PDFParser
-    return PDFDocument(PDFParser(BytesIO(pdf)))
+    return PDFDocument(PDFParser(BytesIO(pdf)), caching=not (case or {}).get("nocache", False))
 
 
 def labels_pdf(case) -> bytes:
-    b = Builder(case["npages"])
+    b = Builder(case["npages"], case.get("pgroups"))
     if case.get("tree") is not None:
         b.catalog["PageLabels"] = emit_numtree(b, case["tree"])
     return b.pdf()
 
 
-def impl_labels(case, count: int) -> Tuple[List[str], List[str]]:
-    """(first `count` results of get_page_labels(), PDFPage.label of every page), canonical; an exception ends the
-    list with E:<type>."""
+def _take(make_iter, k: int) -> List[str]:
     from pdfminer.pdfdocument import PDFNoPageLabels
-    from pdfminer.pdfpage import PDFPage
-    pdf = labels_pdf(case)
-    doc = open_doc(pdf)
     out: List[str] = []
     try:
-        it = doc.get_page_labels()
-        for _ in range(count):
+        it = make_iter()
+        for _ in range(k):
             out.append(cps(next(it)))
     except PDFNoPageLabels:
         out.append("E:PDFNoPageLabels")
     except Exception as e:  # noqa: BLE001
         out.append("E:" + type(e).__name__)
-    doc2 = open_doc(pdf)
+    return out
+
+
+def _page_labels(doc) -> List[str]:
+    from pdfminer.pdfpage import PDFPage
     pl: List[str] = []
     try:
-        for p in PDFPage.create_pages(doc2):
+        for p in PDFPage.create_pages(doc):
             pl.append("none" if p.label is None else cps(p.label))
     except Exception as e:  # noqa: BLE001
         pl.append("E:" + type(e).__name__)
-    return out, pl
+    return pl
+
+
+def impl_labels(case, count: int) -> Tuple[List[str], List[str]]:
+    """(first `count` results of get_page_labels(), PDFPage.label of every page) observed on ONE PDFDocument,
+    canonical; an exception ends the list with E:<type>."""
+    doc = open_doc(labels_pdf(case), case)
+    out = _take(doc.get_page_labels, count)
+    return out, _page_labels(doc)
+
+
+def labels_history(case, count: int) -> Optional[Tuple[str, List[str], List[str]]]:
+    """State carried across calls: the labels are requested several times, in different ways, on ONE PDFDocument
+    (and once on a page selection).  Returns (what, expected, got) for the first observation that differs from the
+    first pass, None when all agree."""
+    from pdfminer.pdfpage import PDFPage
+    pdf = labels_pdf(case)
+    doc = open_doc(pdf, case)
+    npages = case["npages"]
+    first = _take(doc.get_page_labels, count)
+    if first == ["E:PDFNoPageLabels"]:
+        exp_pages = ["none"] * npages
+    else:
+        exp_pages = first[:npages]
+    p1 = _page_labels(doc)
+    if not (exp_pages and exp_pages[-1].startswith("E:")) and p1 != exp_pages:
+        return ("PDFPage.create_pages after get_page_labels on the same document", exp_pages, p1)
+    p2 = _page_labels(doc)
+    if p2 != p1:
+        return ("second PDFPage.create_pages pass over the same document", p1, p2)
+    again = _take(doc.get_page_labels, count)
+    if again != first:
+        return ("second get_page_labels() on the same document", first, again)
+    if first and not first[-1].startswith("E:") and count >= 2:
+        # two generators alive at the same time, consumed alternately
+        k = case.get("split", count // 2) % count
+        try:
+            it1 = doc.get_page_labels()
+            x1 = [cps(next(it1)) for _ in range(k)]
+            it2 = doc.get_page_labels()
+            y = [cps(next(it2)) for _ in range(count)]
+            x2 = [cps(next(it1)) for _ in range(count - k)]
+        except Exception as e:  # noqa: BLE001
+            return ("two get_page_labels() generators consumed alternately", first, ["E:" + type(e).__name__])
+        if y != first or x1 + x2 != first:
+            return ("two get_page_labels() generators consumed alternately", first, x1 + x2 if y == first else y)
+    subset = sorted(set(i for i in case.get("subset", []) if 0 <= i < npages))
+    if subset and not (exp_pages and exp_pages[-1].startswith("E:")):
+        try:
+            got = ["none" if p.label is None else cps(p.label)
+                   for p in PDFPage.get_pages(BytesIO(pdf), pagenos=set(subset))]
+        except Exception as e:  # noqa: BLE001
+            got = ["E:" + type(e).__name__]
+        exp = [exp_pages[i] for i in subset]
+        if got != exp:
+            return ("PDFPage.get_pages(pagenos=%r): labels of the selected pages" % subset, exp, got)
+    return None
 
 
 def impl_labels_strict(case, count: int) -> Tuple[List[str], List[str]]:
@@ -605,8 +699,10 @@ def canon_w(o) -> str:
 def sx_outline_graph(b: Builder, it: "Intern") -> Tuple[int, str]:
     """The outline dictionaries as an object graph (id, Title, Dest, A.D, SE, First, Last?, Next)."""
     parts = []
+    def deref(o):
+        return b.objs[o.n] if isinstance(o, Ref) else o
     for n in b.outline_ids:
-        d = b.objs[n]
+        d = {k: (deref(v) if k in ("Title", "Dest", "A") else v) for k, v in b.objs[n].items()}
         t = d.get("Title")
         tb = None if t is None else (t.b if isinstance(t, HexStr) else t)
         parts.append("(%d %s %s %s %s %s %s %s)" % (
@@ -620,29 +716,72 @@ def sx_outline_graph(b: Builder, it: "Intern") -> Tuple[int, str]:
     return b.outline_ids[0], "(G " + " ".join(parts) + ")"
 
 
-def impl_outline(case) -> List[str]:
-    from pdfminer.pdfdocument import PDFNoOutlines
+def _fmt_outline_item(t) -> str:
     from pdfminer.pdftypes import resolve1
-    b = outline_builder(case)
-    doc = open_doc(b.pdf())
+    (level, title, dest, a, se) = t
+    a1 = resolve1(a)
+    return "%d:%s:%s:%s:%s" % (
+        level, cps(title),
+        "-" if dest is None else canon_obj(resolve1(dest)),
+        "-" if a is None else canon_obj(a1.get("D") if isinstance(a1, dict) else a1),
+        "-" if se is None else "se")
+
+
+def _outline_list(doc, cap: int) -> List[str]:
+    from pdfminer.pdfdocument import PDFNoOutlines
     out: List[str] = []
-    cap = len(b.outline_ids) + 2      # every dictionary yields at most one item
     try:
-        for (level, title, dest, a, se) in itertools.islice(doc.get_outlines(), cap + 1):
+        for t in itertools.islice(doc.get_outlines(), cap + 1):
             if len(out) >= cap:
                 out.append("E:unbounded")
                 break
-            a1 = resolve1(a)
-            out.append("%d:%s:%s:%s:%s" % (
-                level, cps(title),
-                "-" if dest is None else canon_obj(resolve1(dest)),
-                "-" if a is None else canon_obj(a1.get("D") if isinstance(a1, dict) else a1),
-                "-" if se is None else "se"))
+            out.append(_fmt_outline_item(t))
     except PDFNoOutlines:
         out.append("E:PDFNoOutlines")
     except Exception as e:  # noqa: BLE001
         out.append("E:" + type(e).__name__)
     return out
+
+
+def impl_outline(case) -> List[str]:
+    b = outline_builder(case)
+    doc = open_doc(b.pdf(), case)
+    return _outline_list(doc, len(b.outline_ids) + 2)      # every dictionary yields at most one item
+
+
+def outline_history(case) -> Optional[Tuple[str, List[str], List[str]]]:
+    """get_outlines() several times on ONE PDFDocument: again after a full pass, after an abandoned partial pass,
+    and two generators consumed alternately.  (what, expected, got) for the first difference, else None."""
+    b = outline_builder(case)
+    doc = open_doc(b.pdf(), case)
+    cap = len(b.outline_ids) + 2
+    first = _outline_list(doc, cap)
+    second = _outline_list(doc, cap)
+    if second != first:
+        return ("second get_outlines() on the same document", first, second)
+    if first and first[-1].startswith("E:"):
+        return None
+    try:
+        g0 = doc.get_outlines()
+        for _ in range(len(first) // 2):
+            next(g0)                       # abandoned half-way
+        g1, g2 = doc.get_outlines(), doc.get_outlines()
+        a: List[str] = []
+        c: List[str] = []
+        for _ in range(cap):
+            x = next(g1, None)
+            y = next(g2, None)
+            if x is None and y is None:
+                break
+            if x is not None:
+                a.append(_fmt_outline_item(x))
+            if y is not None:
+                c.append(_fmt_outline_item(y))
+    except Exception as e:  # noqa: BLE001
+        return ("two get_outlines() generators consumed alternately", first, ["E:" + type(e).__name__])
+    if a != first or c != first:
+        return ("two get_outlines() generators consumed alternately", first, a if a != first else c)
+    return None
 
 
 def names_pdf(case) -> bytes:
@@ -666,7 +805,7 @@ def query_key(q):
 def impl_dests(case) -> List[str]:
     from pdfminer.pdfdocument import PDFDestinationNotFound
     from pdfminer.pdftypes import resolve1
-    doc = open_doc(names_pdf(case))
+    doc = open_doc(names_pdf(case), case)
     out = []
     for q in case["queries"]:
         key = query_key(q)
@@ -678,6 +817,27 @@ def impl_dests(case) -> List[str]:
         except Exception as e:  # noqa: BLE001
             out.append("E:" + type(e).__name__)
     return out
+
+
+def dests_history(case) -> Optional[Tuple[str, List[str], List[str]]]:
+    """The same queries again, in reverse order, on the SAME PDFDocument: a lookup must not depend on earlier ones."""
+    from pdfminer.pdfdocument import PDFDestinationNotFound
+    from pdfminer.pdftypes import resolve1
+    doc = open_doc(names_pdf(case), case)
+
+    def ask(q) -> str:
+        try:
+            v = doc.get_dest(query_key(q))
+            return "V:" + canon_obj(resolve1(v)) if v is not None else "None"
+        except PDFDestinationNotFound:
+            return "E:notfound"
+        except Exception as e:  # noqa: BLE001
+            return "E:" + type(e).__name__
+    first = [ask(q) for q in case["queries"]]
+    back = [ask(q) for q in reversed(case["queries"])][::-1]
+    if back != first:
+        return ("get_dest asked again on the same document (reverse order)", first, back)
+    return None
 
 
 def spec_dests(case) -> Optional[List[str]]:
@@ -855,6 +1015,8 @@ def gen_label_dict(rng, wild: bool) -> Dict[str, Any]:
     if wild and rng.random() < 0.03:
         ld = {"junk": True, "S": None, "P": None, "St": None}     # the value is not a dictionary
     ld["ind"] = rng.random() < 0.3
+    if rng.random() < 0.25:
+        ld["vind"] = "".join(c for c in "spn" if rng.random() < 0.6)
     ld["type"] = rng.random() < 0.3
     ld["hexstr"] = rng.random() < 0.3
     return ld
@@ -865,10 +1027,12 @@ def shape_tree(rng, entries: List[Any], field: str, mode: Optional[str] = None, 
     mode = mode or rng.choice(["leaf", "balanced", "balanced", "chain", "comb", "random", "random", "wide"])
 
     def leaf(es):
-        return {field: list(es), "kids": None, "ind": rng.random() < 0.6}
+        return {field: list(es), "kids": None, "ind": rng.random() < 0.6, "kind": rng.random() < 0.15,
+                "aind": rng.random() < 0.15}
 
     def inner(kids):
-        return {field: None, "kids": kids, "ind": rng.random() < 0.6}
+        return {field: None, "kids": kids, "ind": rng.random() < 0.6, "kind": rng.random() < 0.15,
+                "aind": rng.random() < 0.15}
 
     if mode == "leaf" or depth > 40:
         return leaf(entries)
@@ -915,6 +1079,19 @@ def gen_labels_case(rng, wild: bool) -> Dict[str, Any]:
         npages = min(max(npages, min(starts[-1] + 2, 90)), 90)
     entries = [[s, gen_label_dict(rng, wild)] for s in starts]
     case: Dict[str, Any] = {"kind": "labels", "npages": npages}
+    if rng.random() < 0.5:
+        # page tree with intermediate /Pages nodes (document order stays the page index)
+        groups: List[int] = []
+        left = npages
+        while left > 0:
+            g = rng.choice([0, 0, 1, 2, 3, 5])
+            g = min(g, left)
+            groups.append(g)
+            left -= max(1, g)
+        case["pgroups"] = groups
+    case["subset"] = sorted(rng.sample(range(npages), rng.randint(1, min(npages, 4))))
+    case["nocache"] = rng.random() < 0.25
+    case["split"] = rng.randint(0, npages + 2)
     if wild:
         r = rng.random()
         if r < 0.25 and len(entries) > 1:
@@ -1021,6 +1198,7 @@ def gen_names_case(rng, wild: bool) -> Dict[str, Any]:
     if rng.random() < 0.05:
         case["names_cat_missing"] = True
     case["names_ind"] = rng.random() < 0.5
+    case["nocache"] = rng.random() < 0.25
     if rng.random() < 0.5:
         dn = {rng.choice(["foo", "bar", "sec1", "a", "A", "chapter.1", "b"]) + rng.choice(["", "", "x"]): None
               for _ in range(rng.randint(0, 4))}
@@ -1087,6 +1265,8 @@ def gen_outline_item(rng, tag: List[int], wild: bool) -> Dict[str, Any]:
         it["hexstr"] = True
     if rng.random() < 0.2:
         it["closed"] = True
+    if rng.random() < 0.2:
+        it["vind"] = "".join(c for c in "tda" if rng.random() < 0.6)
     if wild:
         r = rng.random()
         if r < 0.15:
@@ -1170,6 +1350,7 @@ def gen_outline_case(rng, wild: bool, special: Optional[str] = None) -> Dict[str
         case["no_outlines"] = True
         return case
     case["forest"] = gen_forest(rng, rng.choice([1, 2, 4, 8, 15, 30]), 0, tag, wild, rng.choice([0, 1, 3, 6]))
+    case["nocache"] = rng.random() < 0.25
     return case
 
 
@@ -1332,6 +1513,18 @@ def eval_labels(ctx: C.Ctx, batch: Batch, case, wild: bool, shrink: bool = True)
     if case.get("tree") is not None:
         batch.add("spec.labels %d %s" % (count, sx_numtree(case["tree"])), "spec.labels", case,
                   "outside-domain" if exp is None else "|".join(exp), "spec")
+    hist = labels_history(case, count)
+    if hist is not None:
+        def hfails(c):
+            try:
+                return labels_history(c, c["npages"] + c.get("extra", 3)) is not None
+            except Exception:  # noqa: BLE001
+                return False
+        small = shrink_labels(case, hfails) if case.get("tree") is not None else case
+        h2 = labels_history(small, small["npages"] + small.get("extra", 3)) or hist
+        ctx.fail(C.Failure("page labels depend on what was requested before on the same document / on the page "
+                           "selection: " + h2[0].split(":")[0].split("(pagenos")[0].strip(),
+                           small, h2[1], h2[2], {"component": "labels-history", "observation": h2[0]}))
     if case.get("tree") is not None:
         eval_labels_strict(ctx, batch, case, wild, exp, count)
     if exp is not None and not wild:
@@ -1411,6 +1604,11 @@ def eval_outline(ctx: C.Ctx, batch: Batch, case, wild: bool) -> None:
         return "|".join(out) if out else "-"
     damaged = bool(case.get("damage"))
     small_in = case if n < 200 else {"kind": "outline", "items": n}
+    if n < 400:
+        hist = outline_history(case)
+        if hist is not None:
+            ctx.fail(C.Failure("get_outlines() depends on earlier calls on the same document: " + hist[0], small_in,
+                               hist[1][:40], hist[2][:40], {"component": "outline-history", "observation": hist[0]}))
     if not case.get("no_outlines"):
         # the object-graph model (visited set): also for rewired links (cycles, shared, dangling)
         root_id, gsx = sx_outline_graph(outline_builder(case), it)
@@ -1469,6 +1667,10 @@ def eval_names(ctx: C.Ctx, batch: Batch, case, wild: bool) -> None:
     if tree:
         ctx.branch("nametree:depth>=3" if tree_depth(tree) >= 3 else "nametree:depth<3")
         ctx.branch("nametree:root-limits" if tree.get("limits") else "nametree:root-nolimits")
+    hist = dests_history(case)
+    if hist is not None:
+        ctx.fail(C.Failure("get_dest depends on earlier lookups on the same document", case, hist[1], hist[2],
+                           {"component": "names-history", "observation": hist[0]}))
     it = Intern()
     npages = case.get("npages", 3)
     # register expected values first so that ids are stable
@@ -1541,10 +1743,12 @@ def shrink_names(case, q) -> Dict[str, Any]:
         # two-level tree with tight limits, then fewer keys
         flat = [[h(k), v[:4] + [False]] for k, v in flatten_names(tree)]
 
+        kind = any(nd.get("kind") for nd in all_nodes(tree))
+
         def two_level(entries, root_limits):
             if not entries:
                 return None
-            leaf = {"names": entries, "kids": None, "ind": False}
+            leaf = {"names": entries, "kids": None, "ind": False, "kind": kind}
             root = {"names": None, "kids": [leaf], "ind": False}
             set_tight_limits(root)
             if root_limits:
